@@ -103,11 +103,11 @@ def family(chk, d, tier, seed, hosts, typed_every=None, host_every=9):
     context with -Fao (then the typed-only certificate "no-meaning" counts as well); every host_every-th is put
     into a valid host text (hosts: [(id, bytes, args)]; appended at its end, or inserted after its first line)."""
     lv = {"L1": 0, "L2": 0, "L3": 0, "L4": 0}
-    typed_every = typed_every or (4 if tier == "quick" else 5)
+    typed_every = typed_every or 5
     if tier == "quick":
         mix = '{"mix"}'
         parts = [(dict(lv, L1=3, DStride=1, Stride=1), 1),
-                 (dict(lv, L2=2, DStride=5, Stride=7, VisModes=mix), 2),
+                 (dict(lv, L2=2, DStride=5, Stride=8, VisModes=mix), 2),
                  (dict(lv, L3=1, DStride=14, Stride=13, VisModes=mix), 2)]
     else:
         mix = '{"mix"}'
